@@ -8,6 +8,7 @@ caller so that every branch the reference cares about is decided."""
 from .core import Anchor
 from .tree import int_of, is_node, path_of, show, unblock, walk
 
+DEFAULT_CTX = None          # the fact context of the running check: lets every hook resolve constants and helper functions of the crate
 NONE = ("none",)
 UNIT = ("unit",)
 
@@ -196,7 +197,14 @@ class SymEval:
                 return r
             if p == "None":
                 return NONE
-            if "::" in p and p.split("::")[-1][:1].isupper():
+            last = p.split("::")[-1]
+            if last.isupper() and len(last) > 1:
+                cv = self.h.resolve_const(p)        # SCREAMING_CASE: a constant item of the analysed crates
+                if cv is not NotImplemented:
+                    if isinstance(cv, tuple) and cv and cv[0] == "constinit":
+                        return self.ev(cv[1], Scope({}))
+                    return cv
+            if "::" in p and last[:1].isupper():
                 return ("enum", "::".join(p.split("::")[-2:]), [])
             if "::" in p or self.h.resolve_fn(p) is not None:
                 return ("fnref", p)         # a function or method named as a value (`.map(Type::method)`)
@@ -206,6 +214,8 @@ class SymEval:
         if k == "unary":
             v = self.ev(e[2], env)
             if e[1] == "*":
+                if isinstance(v, tuple) and v and v[0] == "cell":
+                    return v[1][v[2]]
                 return v
             if e[1] == "!" and isinstance(v, bool):
                 return not v
@@ -381,6 +391,9 @@ class SymEval:
             if len(args) == 1 and isinstance(args[0], int) and not isinstance(args[0], bool) and p.split("::")[-1] == "from" and \
                     p.split("::")[-2:-1] and p.split("::")[-2] in ("usize", "u32", "u64", "u16", "u8", "i32", "i64", "Word"):
                 return args[0]
+            if len(args) == 1 and p.split("::")[-2:] in (["String", "from"], ["ToOwned", "to_owned"], ["ToString", "to_string"], ["Clone", "clone"],
+                                                         ["Into", "into"], ["From", "from"], ["str", "to_owned"], ["Cow", "Borrowed"], ["Cow", "Owned"]):
+                return args[0]          # conversions that keep the value
             if p.split("::")[-2:] == ["iter", "once"] and len(args) == 1:
                 return ("list", [args[0]])
             if p.split("::")[-2:] == ["iter", "empty"] and not args:
@@ -536,7 +549,15 @@ class SymEval:
             sname = e[1].split("::")[-1]
             if sname == "Self":
                 sname = getattr(self.h, "self_ty", None) or sname
-            return ("struct", sname, {fl: self.ev(x, env) for fl, x in e[2]})
+            fields = {}
+            if len(e) > 3 and e[3] is not None:
+                base = self.ev(e[3], env)          # struct update syntax: the remaining fields come from the base value
+                if not (isinstance(base, tuple) and base and base[0] == "struct"):
+                    self.fail("struct update from a value of unknown shape", e[3])
+                fields = dict(base[2])
+            for fl, x in e[2]:
+                fields[fl] = self.ev(x, env)
+            return ("struct", sname, fields)
         self.fail("unrecognised expression", e)
 
     def lvalue(self, e, env):
@@ -545,7 +566,13 @@ class SymEval:
         k = e[0]
         if k == "paren":
             return self.lvalue(e[1], env)
-        if k == "ref" or (k == "unary" and e[1] == "*"):
+        if k == "unary" and e[1] == "*":
+            p_ = path_of(e[2])
+            if p_ is not None and p_ in env and isinstance(env[p_], tuple) and env[p_] and env[p_][0] == "cell":
+                c_ = env[p_]
+                return (lambda: c_[1][c_[2]]), (lambda v: c_[1].__setitem__(c_[2], v))
+            return self.lvalue(e[2], env)
+        if k == "ref":
             return self.lvalue(e[2], env)
         if k == "path" and e[1] in env:
             name = e[1]
@@ -641,11 +668,17 @@ class SymEval:
     def set_place(self, place, v, env):
         """assign to a local or to a (nested) field of a local struct value; returns the old value or NotImplemented"""
         place = unblock(place)
+        derefs = 0
         while place[0] == "ref" or (place[0] == "unary" and place[1] == "*"):
+            derefs += 1 if place[0] == "unary" else 0
             place = place[2]
         p = path_of(place)
         if p is not None and p in env:
             old = env[p]
+            if derefs and isinstance(old, tuple) and old and old[0] == "cell":
+                prev = old[1][old[2]]
+                old[1][old[2]] = v
+                return prev
             env[p] = v
             return old
         if place[0] == "field":
@@ -689,6 +722,13 @@ class SymEval:
                                 return r_.v
                         finally:
                             self.depth -= 1
+                if "::" in clo[1] and args:
+                    # `Trait::method` / `Type::method` named as a value: a method call on its first argument
+                    sc = Scope({"__recv": args[0]})
+                    for i_, a_ in enumerate(args[1:]):
+                        sc.bind("__arg%d" % i_, a_)
+                    synth = ["mcall", ["path", "__recv"], clo[1].split("::")[-1], [["path", "__arg%d" % i_] for i_ in range(len(args) - 1)], None]
+                    return self.mcall(synth, sc)
                 self.fail("call of function reference %s" % clo[1])
             return r
         if not (isinstance(clo, tuple) and clo[0] == "closure"):
@@ -790,8 +830,14 @@ class SymEval:
                 return ("list", items[::args[0]])
             if m in ("to_vec", "clone", "to_owned", "collect"):
                 return ("list", list(items))
+            if m == "iter_mut" and isinstance(items, list) and items and not any(isinstance(x, tuple) and x and x[0] in ("struct", "list", "map", "fmt") for x in items):
+                # mutable references to scalar elements: cells that read and write the element in place
+                return ("list", [("cell", items, i_) for i_ in range(len(items))])
             if m in ("iter", "iter_mut", "into_iter", "as_slice", "as_mut_slice", "cloned", "copied", "as_ref", "as_mut", "peekable", "by_ref", "fuse"):
                 return recv
+            if m == "zip" and len(args) == 1 and isinstance(args[0], tuple) and args[0] and args[0][0] in ("list", "chunks"):
+                other = args[0][1]
+                return ("list", [("tuple", [a_, b_]) for a_, b_ in zip(items, other)])
             if m == "peek" and not args:
                 return ("some", items[0]) if items else NONE
             if m == "next" and not args:
@@ -1015,6 +1061,27 @@ class SymEval:
                 return recv[1] if some else self.apply(args[0], [])
             if m == "unwrap_or_default" and some:
                 return recv[1]
+            if m == "unwrap_or_default" and not some:
+                # the default of the payload type: read it off the closure of a preceding `.map(closure)` / `.and_then(..)`
+                src = unblock(e[1]) if e is not None else None
+                shape = None
+                if src is not None and src[0] == "mcall" and src[2] in ("map", "and_then") and len(src[3]) == 1:
+                    try:
+                        fv = self.ev(src[3][0], env)
+                        shape = self.apply(fv, [("sym", "_")])
+                        if isinstance(shape, tuple) and shape and shape[0] == "some":
+                            shape = shape[1]
+                    except (Anchor, Panic):
+                        shape = None
+                if isinstance(shape, tuple) and shape and shape[0] in ("fmt", "str", "join", "text"):
+                    return ("str", "")
+                if isinstance(shape, tuple) and shape and shape[0] == "list":
+                    return ("list", [])
+                if isinstance(shape, int) and not isinstance(shape, bool):
+                    return 0
+                if isinstance(shape, bool):
+                    return False
+                return ("default",)
             if m == "ok_or_else":
                 return ("ok", recv[1]) if some else ("err", self.apply(args[0], []))
             if m == "or":
@@ -1339,6 +1406,16 @@ def flatten_fmt(v):
     return merged
 
 
+def _const_items(ctx):
+    out = {}
+    for cr in (ctx.rspirv, ctx.spirv):
+        for m in cr.modules():
+            for it in cr.items(m):
+                if it.get("kind") in ("const", "static") and it.get("init") is not None and it.get("name") not in (None, "_"):
+                    out.setdefault(it["name"], []).append(it)
+    return out
+
+
 def _free_fns(ctx):
     out = {}
     for m in ctx.rspirv.modules():
@@ -1377,9 +1454,25 @@ class Hooks:
     def cast(self, v, ty, e):
         return NotImplemented
 
+    def resolve_const(self, path):
+        """value of a constant item of the analysed crates named by `path` (NotImplemented: unknown)"""
+        ctx = getattr(self, "ctx", None) or DEFAULT_CTX
+        if ctx is None:
+            return NotImplemented
+        idx = ctx.memo("const_items", lambda: _const_items(ctx))
+        c = idx.get(path.split("::")[-1], [])
+        if not c:
+            return NotImplemented
+        vals = {int_of(x["init"]) for x in c}
+        if len(vals) == 1 and None not in vals:
+            return vals.pop()
+        if len(c) == 1:
+            return ("constinit", c[0]["init"])
+        return NotImplemented
+
     def resolve_fn(self, path):
         """a free function of the analysed crate to evaluate in place (None: unknown)"""
-        ctx = getattr(self, "ctx", None)
+        ctx = getattr(self, "ctx", None) or DEFAULT_CTX
         if ctx is None:
             return None
         name = path.split("::")[-1]
